@@ -37,7 +37,9 @@ def _sta_worker(args: tuple[str, bool, int, int]) -> dict[str, Any]:
     rejected_ok = 0
     total = 0
     samples: list[dict[str, Any]] = []
-    for idx, (family, prog) in enumerate(all_skeletons(thorough)):
+    from ..spec.skeletons import gen_random
+    import itertools
+    for idx, (family, prog) in enumerate(itertools.chain(all_skeletons(thorough), gen_random(thorough))):
         if idx % n != k:
             continue
         total += 1
